@@ -263,11 +263,20 @@ func (s *session) resize(w, h int) {
 	if w == s.w && h == s.h {
 		return
 	}
-	s.emu.VerifResize(w, h)
 	s.fc.SetSize(w, h)
 	s.hfc.SetSize(w, h)
 	s.host.Resize()
 	s.host.Render()
+	if s.rng.Bool() {
+		s.emu.VerifResize(w, h)
+		s.r.Count("resize-direct")
+	} else {
+		// the way a host application does it: its window changed size and Draw resizes the emulator
+		win := s.host.Window()
+		win.Clear()
+		s.emu.Draw(win)
+		s.r.Count("resize-by-draw")
+	}
 	s.vx.Resize()
 	s.vx.Render()
 	for len(s.vx.Events()) > 0 {
@@ -278,8 +287,9 @@ func (s *session) resize(w, h int) {
 	}
 	s.w, s.h = w, h
 	s.fc.Take()
+	// the emulator MODEL executes resize(w, h) from its state; compared with the real emulator's state
+	s.r.Emit(fmt.Sprintf("emuresize %d %d", w, h), emuh.Snapshot(s.emu.VerifSnapshot()))
 	s.r.Emit(fmt.Sprintf("size %d %d", w, h), "-")
-	s.r.Emit("emuadopt", emuh.Snapshot(s.emu.VerifSnapshot()))
 	s.r.Count("frame-resize")
 	if s.rng.Bool() {
 		s.hideCursor()
@@ -422,7 +432,24 @@ func (s *session) drawOps(n int, styles []vaxis.Style) {
 
 func history(r *hx.Run, rng *gen.Rng, id string, maxW, maxH, frames int) error {
 	w, h := rng.Range(1, maxW), rng.Range(1, maxH)
+	if rng.Chance(1, 3) {
+		// what a shell left on the primary screen before the application started (reflowed by every resize)
+		var sb strings.Builder
+		for k := rng.Intn(12); k >= 0; k-- {
+			switch rng.Intn(6) {
+			case 0:
+				sb.WriteString("\r\n")
+			case 1:
+				fmt.Fprintf(&sb, "\x1b[%dm", gen.Pick(rng, []int{0, 1, 4, 7, 31, 44, 92, 103}))
+			default:
+				sb.WriteString(gen.Pick(rng, alphabet))
+			}
+		}
+		preFeed = sb.String()
+		r.Count("history-with-primary-content")
+	}
 	s, err := newSession(r, rng, id, w, h, rng.Bool(), rng.Bool(), rng.Bool(), rng.Bool(), rng.Bool())
+	preFeed = ""
 	if err != nil {
 		return err
 	}
@@ -546,24 +573,41 @@ func run(r *hx.Run) error {
 		s.close()
 		r.Count("scenario-merge")
 	}
-	// F112c: a shell left a coloured line on the primary screen; the application (alternate screen)
-	// draws, the host resizes the emulator, the application redraws
-	{
-		preFeed = "\x1b[44mabcd\r\n\x1b[m"
-		s, err := newSession(r, rng, "resize-pen", 4, 2, false, false, false, false, true)
+	// F112c (fixed, aefad78; kept as a regression): a shell left a coloured line on the primary screen; the
+	// application (alternate screen) draws, the host resizes the emulator, the application redraws.
+	// Further resize scenarios: the reflow of the primary screen ends in the pending-wrap column
+	// (resize-wrap), scrolls (resize-scroll), leaves a hyperlinked / bold pen candidate (resize-link).
+	for _, sc := range []struct {
+		id, pre    string
+		w, h, nw, nh int
+	}{
+		{"resize-pen", "\x1b[44mabcd\r\n\x1b[m", 4, 2, 5, 2},
+		{"resize-wrap", "abcdefgh", 4, 3, 4, 2},
+		{"resize-scroll", "\x1b[1;31ma\r\nb\r\nc\r\nd\x1b[m", 3, 4, 2, 2},
+		{"resize-link", "\x1b]8;id=1;http://x\x1b\\\x1b[4;48;5;9mlink\x1b[m\x1b]8;;\x1b\\\r\nz", 6, 2, 3, 3},
+		{"resize-grow", "\x1b[7mab\r\ncd\r\n\x1b[mef", 2, 3, 7, 4},
+	} {
+		preFeed = sc.pre
+		s, err := newSession(r, rng, sc.id, sc.w, sc.h, false, false, false, false, true)
 		preFeed = ""
 		if err != nil {
 			return err
 		}
 		win := s.vx.Window()
-		win.SetCell(0, 1, ch("y"))
+		win.SetCell(0, sc.h-1, ch("y"))
 		s.render(false)
-		s.resize(5, 2)
+		s.resize(sc.nw, sc.nh)
 		win = s.vx.Window()
 		win.SetCell(0, 0, ch("x"))
 		s.render(false)
+		win.SetCell(sc.nw-1, sc.nh-1, ch("z"))
+		s.render(false)
+		s.resize(sc.w, sc.h)
+		win = s.vx.Window()
+		win.SetCell(0, 0, ch("w"))
+		s.render(false)
 		s.close()
-		r.Count("scenario-resize-pen")
+		r.Count("scenario-" + sc.id)
 	}
 	// Random histories
 	hist, maxW, maxH, frames := 300, 8, 4, 6
